@@ -91,6 +91,22 @@ inductive CEv
   | fieldSet (h : String) (k : Int)        -- `h._ref = k`
   | fieldTest (h : String) (rel : String) (k : Int) (holds : Bool)   -- path condition `h._ref <rel> k` (or its negation)
   | handleNode (x : Nat) (h : String)      -- the node `x` is `h.node` (emitted in `init`/`__dealloc__`/`incref`/`decref` only)
+  -- exceptions raised INSIDE a callee (or by a subscript / a type test of a Python object): the path
+  -- leaves the function here, through the enclosing `finally` blocks; `site` = `callee#k`, the k-th
+  -- place of that label in the function, in source order (`getitem`, `setitem`, `typetest` for
+  -- `d[k]`, `d[k] = v`, the binding of a local declared `g: Function`)
+  | raiseIn (site : String) (line : Nat)
+  -- a loop that stores into the C array `c` is entered / was left because its iterator is exhausted
+  -- (NOT emitted when the loop is left by `break`, `return` or an exception: slots stay unfilled)
+  | fillBegin (c : Nat)
+  | fillEnd (c : Nat)
+  -- the local name through which `x` was reached (`f.node`) is rebound or deleted, and `f` was bound
+  -- to the result of the call `via` (a handle that nothing else is known to keep alive)
+  | handleDrop (x : Nat) (via : String)
+  -- an iteration of an unrolled loop begins / ends by reaching the loop head again / is left by `break`
+  | iterBegin
+  | iterEnd
+  | iterBreak
 deriving Repr, DecidableEq, Inhabited
 
 structure CPath where
